@@ -152,7 +152,8 @@ fn readable(r: usize) -> bool {
         return false;
     }
     let a = unsafe { Address::from_usize(r) };
-    if !mm::is_mapped_address(a) {
+    // (malloc mark-sweep objects live outside MMTk-mapped memory: ask the SFT as well)
+    if !mm::is_mapped_address(a) && !mm::is_in_mmtk_spaces(to_ref(r)) {
         return false;
     }
     #[cfg(has_vo_bit)]
